@@ -537,7 +537,7 @@ fn memory_mode(ctx: &Ctx, rep: &mut Report) {
             sc.chunk = 100_000;
             sc.threads = threads;
             sc.queue = queue;
-            sc.api = [Api::PerRecordInit, Api::PerRecord, Api::ReadParallel, Api::ParallelRecords][(ctx.shard / 2 % 4) as usize];
+            sc.api = [Api::PerRecordInit, Api::PerRecord, Api::ReadParallel, Api::ParallelRecords][((ctx.shard / 4 + ctx.seed) % 4) as usize];
             sc.stop_after = None;
             sc.init_fail = RealInitFail::None;
             sc.delay = Delay::SlowConsumer;
@@ -594,7 +594,7 @@ fn memory_mode(ctx: &Ctx, rep: &mut Report) {
     let reader_name = if !real {
         "mock".to_string()
     } else {
-        format!("{} via {:?}", if ctx.shard % 4 == 3 { "fasta (1-6 lines per record)" } else { "fastq" }, [Api::PerRecordInit, Api::PerRecord, Api::ReadParallel, Api::ParallelRecords][(ctx.shard / 2 % 4) as usize])
+        format!("{} via {:?}", if ctx.shard % 4 == 3 { "fasta (1-6 lines per record)" } else { "fastq" }, [Api::PerRecordInit, Api::PerRecord, Api::ReadParallel, Api::ParallelRecords][((ctx.shard / 4 + ctx.seed) % 4) as usize])
     };
     rep.map("memory_pair_reader", &reader_name);
     rep.sample(json!({"mode": "memory", "reader": reader_name, "threads": threads, "queue": queue,
